@@ -30,7 +30,7 @@ func vfPath() (string, string) {
 	return data, lock
 }
 
-// VF_C16_Append: k messages are sent through two separate handles (alternating); every message gets the offset
+// VF_C16_Append: k messages are sent through two separate handles (every assignment of messages to handles); every message gets the offset
 // equal to its position; a fresh reader sees all of them in order with those offsets.
 func VF_C16_Append() {
 	k := vf.ParamInt("k")
@@ -48,8 +48,9 @@ func VF_C16_Append() {
 		// every message must be one the reader accepts: its stored line is shorter than 1 MiB.
 		// base64 of the payload dominates the line: 4/3*len + ~200 bytes of envelope
 		vf.Assume(len(m.Data) < 700000)
+		// which of the two handles sends is free for every message (the first one by symmetry)
 		w := w1
-		if i%2 == 1 {
+		if i > 0 && vf.Choose("writer"+strconv.Itoa(i), 2) == 1 {
 			w = w2
 		}
 		msgs := []storage.Message{m}
